@@ -35,6 +35,9 @@ var asaUnmanaged = []string{
 	"object-group network g1\n network-object host 10.1.1.10\n network-object host 10.1.1.11\naccess-list manual3 extended permit ip object-group g1 any4\n",
 	// interface unknown to Netspoc with access-groups in both directions
 	"interface Ethernet0/5\n nameif dmz3\naccess-list dmz3_in extended permit ip host 10.5.5.31 any4\naccess-list dmz3_out extended permit ip host 10.5.5.32 any4\naccess-group dmz3_in in interface dmz3\naccess-group dmz3_out out interface dmz3\n",
+	// hand-made unbound ACL whose line names a group of a kind the tool does
+	// not model (icmp-type) next to a generated network group
+	"object-group icmp-type PING\n icmp-object echo\nobject-group network gmon-DRC-0\n network-object host 10.5.5.61\naccess-list MONITOR extended permit icmp object-group gmon-DRC-0 any4 object-group PING\n",
 	// access-group of an unknown interface with a trailing keyword
 	"interface Ethernet0/6\n nameif dmz4\naccess-list dmz4_in-DRC-0 extended permit ip host 10.5.5.41 any4\naccess-group dmz4_in-DRC-0 in interface dmz4 per-user-override\n",
 	"interface Ethernet0/7\n nameif dmz5\naccess-list dmz5_cp-DRC-0 extended permit ip host 10.5.5.51 any4\naccess-group dmz5_cp-DRC-0 in interface dmz5 control-plane\n",
@@ -370,7 +373,7 @@ func panFrameSpace() *panSpace {
 func init() {
 	registerSharded("C07", c07Worker, func(tier string) core.Meta {
 		return core.Meta{ID: "C07", Level: "model_checking",
-			Rule: "states = distinct device-model states; device states = managed ACL pair space (len<=2 over 5 lines incl. group references) x all subsets of up to 2 (thorough 4) unmanaged items from an alphabet of 14 ASA / 8 IOS items (plain-named group-policy and tunnel-group chains through two-command objects down to generated filter ACLs, groups and pools, unbound plain-named ACL, group used only by it, group shared with a managed ACL, unknown interfaces - shutdown or not - with ACLs (also bound with per-user-override or control-plane), groups and crypto maps carrying generated names, routes of other family/VRF, unmodelled lines, aaa-server/ldap map, gdoi crypto map); IOS routes: devices with interfaces in three VRFs and every route subset, targets with routes for some VRFs only (routes of the other VRFs must stay); space aaa: a managed tunnel-group naming a hand-maintained aaa-server whose definition differs from the one in the target (protocol, hosts, attribute map) x tunnel-group variants on both sides; PAN-OS: two-vsys devices, target addressing one; transition = real planner; after every executed command every unmanaged entry must still be present with identical text and sub-commands (PAN-OS: the XML outside the targeted vsys is byte-identical); non-trivial = script non-empty. NSX (objects without the Netspoc prefix) is filtered while reading the manager and is therefore checked end to end by the dialogue engine (C11/C09 simulators), not here",
+			Rule: "states = distinct device-model states; device states = managed ACL pair space (len<=2 over 5 lines incl. group references) x all subsets of up to 2 (thorough 4) unmanaged items from an alphabet of 15 ASA / 8 IOS items (plain-named group-policy and tunnel-group chains through two-command objects down to generated filter ACLs, groups and pools, unbound plain-named ACL, group used only by it, group shared with a managed ACL, unknown interfaces - shutdown or not - with ACLs (also bound with per-user-override or control-plane), groups and crypto maps carrying generated names, routes of other family/VRF, unmodelled lines, aaa-server/ldap map, gdoi crypto map); IOS routes: devices with interfaces in three VRFs and every route subset, targets with routes for some VRFs only (routes of the other VRFs must stay); space aaa: a managed tunnel-group naming a hand-maintained aaa-server whose definition differs from the one in the target (protocol, hosts, attribute map) x tunnel-group variants on both sides; PAN-OS: two-vsys devices, target addressing one; transition = real planner; after every executed command every unmanaged entry must still be present with identical text and sub-commands (PAN-OS: the XML outside the targeted vsys is byte-identical); non-trivial = script non-empty. NSX (objects without the Netspoc prefix) is filtered while reading the manager and is therefore checked end to end by the dialogue engine (C11/C09 simulators), not here",
 			Assumptions: []string{"unmanaged content is what the statement lists; the check knows exactly which lines it added as unmanaged"},
 			Bounds:      map[string]any{"quick": "<=2 unmanaged items", "thorough": "<=4 unmanaged items"},
 		}
